@@ -18,7 +18,7 @@ RULE = (
 )
 REQUIRED = ["siphon_sets_checked", "trap_sets_checked", "enabled_contract_evals", "fire_contract_evals",
             "realizable_true", "realizable_false", "certificates_replayed", "catalyst_firings",
-            "networks_with_siphon_larger_than_2", "flows_needing_specific_order", "analyzer_checked"]
+            "networks_with_siphon_larger_than_2", "flows_needing_specific_order", "analyzer_checked", "history_after_borrow_checked", "borrow_vectors_nonzero"]
 ASSUMPTIONS = [
     "realizability compared only for flows whose product of (flow+1) <= 10^4 (complete search on both sides, well inside the code's default bounds)",
     "max_size argument: expected = inclusion-minimal sets among those of size <= max_size",
@@ -224,6 +224,21 @@ def check_realizability(ctx, net, flow, tag=""):
             ctx.violation("certificate", wit, f"certificate {cert}: {problem}")
         if pr.certificate != cert:
             ctx.violation("certificate", wit, f"stored certificate {pr.certificate} != returned {cert}")
+    # history: the auxiliary searches (scaled / borrow) must leave the instance as they found it
+    if len(W.species_of(net)) <= 4 and sum(flow) <= 6:
+        pr.is_scaled_realizable(k_max=2)
+        okb, b = pr.is_borrow_realizable(max_borrow_each=1)
+        ok2, cert2 = pr.is_realizable()
+        ctx.count("history_after_borrow_checked")
+        if okb and b and any(b.values()):
+            ctx.count("borrow_vectors_nonzero")
+        if ok2 != want:
+            ctx.violation("realizable-depends-on-history", {**wit, "borrow": dict(b) if b else None},
+                          f"after is_scaled_realizable / is_borrow_realizable on the same instance, is_realizable() = {ok2} but an ordering {'exists' if want else 'does not exist'}")
+        elif ok2:
+            problem = replay_certificate(net, ids, flow, cert2)
+            if problem:
+                ctx.violation("certificate", {**wit, "after": "borrow search"}, f"certificate {cert2} after a borrow search: {problem}")
     ctx.case(("real", net, flow), nontrivial=sum(flow) >= 2,
              sample={"space": tag, "reactions": W.fmt_net(net), "flow": flow, "realizable": want, "certificate": cert}
              if (ctx.rng.random() < 0.002 or ctx.counters["realizable_true"] + ctx.counters["realizable_false"] <= 2) else None)
